@@ -114,3 +114,30 @@ func cachedTx(family []byte, k txKey) transaction.Transaction {
 }
 
 var txMemF map[any][]byte
+
+// signV3 signs a v3 transaction given as JSON without the signature field and parses it.
+func signV3(from module.Wallet, js string) (transaction.Transaction, []byte) {
+	bs, err := transaction.SerializeJSON([]byte(js), nil, sigExclude)
+	if err != nil {
+		panic(err)
+	}
+	bs = append([]byte("icx_sendTransaction."), bs...)
+	sig, err := from.Sign(crypto.SHA3Sum256(bs))
+	if err != nil {
+		panic(err)
+	}
+	full := js[:len(js)-1] + `,"signature":"` + base64.StdEncoding.EncodeToString(sig) + `"}`
+	tx, err := transaction.NewTransactionFromJSON([]byte(full))
+	if err != nil {
+		panic(err)
+	}
+	return tx, []byte(full)
+}
+
+// makeSetThresholdTx: the governance account calls the chain SCORE's setTimestampThreshold(ms).
+func makeSetThresholdTx(from module.Wallet, ts, nonce, ms int64) transaction.Transaction {
+	js := fmt.Sprintf(`{"version":"0x3","from":"%s","to":"cx0000000000000000000000000000000000000000","stepLimit":"0x100000","timestamp":"0x%x","nid":"0x1","nonce":"0x%x","dataType":"call","data":{"method":"setTimestampThreshold","params":{"threshold":"0x%x"}}}`,
+		from.Address().String(), ts, nonce, ms)
+	tx, _ := signV3(from, js)
+	return tx
+}
